@@ -75,6 +75,19 @@ func plan(c *Ctx, seeds []*Seed, pc planCfg) []Case {
 		default:
 			names = s.Home[:min(targets, len(s.Home))]
 		}
+		// the cost estimate follows what the MUTATED stream declares (a corrupted dimension field
+		// can turn a 40-byte stream into seconds of page zeroing)
+		cst := s.CostMs
+		if s.Fam != famRLE {
+			if dd := SniffAny(m.data); dd.Found {
+				n := int64(satMul3(dd.W, dd.H, dd.C))
+				if s.Fam == famJ2K {
+					cst = max(cst, 2+n/400)
+				} else {
+					cst = max(cst, n/20000)
+				}
+			}
+		}
 		for _, n := range names {
 			e := entryByName[n]
 			var f *FI
@@ -86,7 +99,7 @@ func plan(c *Ctx, seeds []*Seed, pc planCfg) []Case {
 					f = &ff
 				}
 			}
-			cases = append(cases, Case{Entry: n, Data: m.data, FI: f, Seed: s.Name, Mut: m.mut, Fam: s.Fam, Cost: s.CostMs})
+			cases = append(cases, Case{Entry: n, Data: m.data, FI: f, Seed: s.Name, Mut: m.mut, Fam: s.Fam, Cost: cst})
 		}
 	}
 	classSeen := map[string]int{}
@@ -471,7 +484,7 @@ func thin(cs []Case, budgetMs int64, rng *Rand) (kept []Case, dropped int) {
 	p := float64(budgetMs) / float64(total)
 	seen := map[string]int{}
 	for i := range cs {
-		if cs[i].Cost >= 2 {
+		if cs[i].Cost >= 2 && cs[i].Mut != "valid" { // valid corpus streams are never dropped
 			k := cs[i].Entry + "|" + cs[i].Mut
 			seen[k]++
 			minKeep := 3
@@ -556,6 +569,19 @@ func execute(c *Ctx, cases []Case, st *runState, confirmTimeouts bool, on func(c
 			for k, i := range again {
 				if k < len(r2) {
 					res[i] = r2[k]
+					// the isolated child is fresh: its CPU time is the CPU time of this one case. A wall-clock
+					// timeout during which the decoder did not even consume the watchdog's worth of CPU time is the machine's doing
+					// (other jobs), not the decoder's: inconclusive, never reported.
+					if r2[k].Status == "timeout" {
+						var cpu int64 = -1
+						if j := strings.Index(r2[k].Detail, "cpu="); j >= 0 {
+							fmt.Sscanf(r2[k].Detail[j+4:], "%d", &cpu)
+						}
+						if cpu >= 0 && cpu < watchdog.Milliseconds() {
+							res[i] = Res{Status: "err", Detail: fmt.Sprintf("timeout not confirmed: only %d ms CPU in %v wall (machine overloaded)", cpu, watchdog)}
+							c.R.Case("", false, "timeout.inconclusive-overloaded-machine")
+						}
+					}
 				} else {
 					res[i] = Res{Status: "err", Detail: "timeout under load, not re-run (cap)"}
 				}
@@ -852,9 +878,13 @@ func runC08(c *Ctx) {
 	st := &runState{hits: map[string]*sigHit{}, timeouts: map[string]int{}}
 	whatOf := map[string]string{}
 	notes := map[string]int{}
+	home0 := map[string]string{}
 	on := func(cs *Case, r *Res) {
 		record(c, cs, r)
 		c.R.Oracle("c08." + cs.Entry)
+		if cs.Mut == "valid" && home0[cs.Seed] == cs.Entry && r.Status != "ok" {
+			notes["valid-corpus-stream-not-decoded:"+cs.Seed+":"+r.Status]++
+		}
 		sig, what, note := c08Sig(cs, r)
 		if note != "" {
 			notes[note]++
@@ -870,6 +900,9 @@ func runC08(c *Ctx) {
 		c.R.Note("replay of %d recorded inputs from %s", len(cases), c.Replay)
 	} else {
 		seeds, ns := BuildCorpus(c.Rng.Fork(), c.Thor)
+		for _, s := range seeds {
+			home0[s.Name] = s.Home[0]
+		}
 		if os.Getenv("PARSERS_VERBOSE") != "" {
 			fmt.Fprintf(os.Stderr, "[parsers] corpus built: %d seeds, %.1fs\n", len(seeds), time.Since(t0).Seconds())
 		}
